@@ -30,7 +30,9 @@ typedef struct {
 static vh_event *vh_events;
 static volatile uint32_t vh_nevents;
 static int vh_overflow;
-static atomic_flag vh_tlock = ATOMIC_FLAG_INIT;
+static atomic_flag vh_tlock = ATOMIC_FLAG_INIT; /* guards thread registration only */
+static atomic_uint vh_ticket_next, vh_ticket_serving; /* trace lock: FIFO ticket lock (a test-and-set lock lets a
+                                                        * thread that logs in a tight loop starve the others) */
 static int vh_perturb = 1; /* H2 on/off */
 static int vh_target_kind = -1;     /* search mode: delay after every event of this kind */
 static int vh_target_us = 200;
@@ -125,9 +127,10 @@ static void vh_trace_lock(void)
                 ;
         }
     }
+    unsigned my = atomic_fetch_add_explicit(&vh_ticket_next, 1, memory_order_relaxed);
     int spins = 0;
-    while (atomic_flag_test_and_set_explicit(&vh_tlock, memory_order_acquire)) {
-        if (++spins > 200) {
+    while (atomic_load_explicit(&vh_ticket_serving, memory_order_acquire) != my) {
+        if (++spins > 100) {
             sched_yield();
             spins = 0;
         }
@@ -135,7 +138,7 @@ static void vh_trace_lock(void)
 }
 static void vh_trace_unlock(void)
 {
-    atomic_flag_clear_explicit(&vh_tlock, memory_order_release);
+    atomic_fetch_add_explicit(&vh_ticket_serving, 1, memory_order_release);
     if (vh_tl_delay_pending) {
         /* targeted perturbation (failing-input search): widen the window right
          * after the action at which model and implementation disagreed */
